@@ -337,6 +337,18 @@ func (o *oracle) checkSigned(inst *Instance, ev *CkptEvent) {
 		o.v("C11", "nondeterministic-signature", "two different signatures over the same tree head %s", k)
 	}
 	o.sigSeen[k] = sth.SigBytes
+	// signing is deterministic: signing the same tree head again with the log's
+	// configuration gives the same RFC 6962 signature bytes
+	if (w.prof.Prop == "C11" || len(o.sigSeen) == 1) && inst.cfg != nil {
+		if again, err := ctlog.VerifSignTreeHead(inst.cfg, sth.Size, [32]byte(sth.Root), sth.Timestamp); err == nil {
+			if sth2, err := o.verifyCkpt(inst, again); err == nil && sth2 != nil {
+				w.sim.Probe("c11.resigned")
+				if !bytes.Equal(sth2.SigBytes, sth.SigBytes) {
+					o.v("C11", "nondeterministic-signature", "signing tree head %s again gives other RFC 6962 signature bytes", k)
+				}
+			}
+		}
+	}
 }
 
 func (o *oracle) onPublish(inst *Instance, inc int, st *Store, b []byte) {
